@@ -105,7 +105,9 @@ def shadow(modname, **shims):
             if explicit_super:
                 # `super(Name, self)` inside the methods must skip to the
                 # REAL bases: rebuild the class with the same bases
-                bases = tuple(g.get(b.__name__, b) if b.__module__ == modname
+                bases = tuple(g.get(b.__name__, b)
+                              if (b.__module__ == modname or
+                                  isinstance(shims.get(b.__name__), type))
                               else b for b in val.__bases__)
                 newcls = type(val)(name, bases, ns)
             else:
